@@ -89,8 +89,9 @@ type vzWorld struct {
 
 	lastFaultStep int
 	handlerSends  map[string]int
-	beyondModel   bool // validators holding >= 1/3 of the power have equivocated in some round
-	progressAt    int // step of the last finalization anywhere (0 = none yet)
+	endReason     string // why run() returned: done, quiescent (nothing left to do), cutoff (no progress for long), limit
+	beyondModel   bool   // validators holding >= 1/3 of the power have equivocated in some round
+	progressAt    int    // step of the last finalization anywhere (0 = none yet)
 	notes         []string
 	seenProposals map[string][]string // "h/r" -> proposal hashes seen on the wire
 	lastErr       map[string]string   // node ident -> last ERROR log line of its engine
@@ -737,6 +738,8 @@ func (w *vzWorld) crash(nd *vzNode) {
 	w.mu.Unlock()
 	nd.cancel()
 	w.s.KillIdent(nd.ident())
+	w.orc.checkStoredHeadersIntact(nd)
+	w.orc.onCrash(nd)
 	w.s.Fault("crash")
 	w.note("%s CRASH after %d durable writes", nd.ident(), nd.disk.writes)
 	go func() {
@@ -920,14 +923,17 @@ func (w *vzWorld) liveTimers() []*vzTimer {
 // run drives the world until done() or nothing is left to do. extra() may contribute actions.
 func (w *vzWorld) run(done func() bool, extra func() []vsimcore.Action) (stalled bool) {
 	s := w.s
+	w.endReason = "limit"
 	for s.Steps < w.cfg.maxSteps && !s.Failed() && !s.Expired() {
 		vsimcore.Wait()
 		w.orc.afterStep()
 		if s.Steps-w.progressAt > w.cfg.maxSteps/4 {
 			s.Probe("no_progress_cutoff")
+			w.endReason = "cutoff"
 			return true
 		}
 		if s.Failed() || done() {
+			w.endReason = "done"
 			return false
 		}
 		if w.pendingCrash {
@@ -1006,6 +1012,7 @@ func (w *vzWorld) run(done func() bool, extra func() []vsimcore.Action) (stalled
 			}
 		}
 		if len(acts) == 0 {
+			w.endReason = "quiescent"
 			return true
 		}
 		s.Pick(acts)
@@ -1105,6 +1112,15 @@ func (w *vzWorld) maybeFault(live []*vzTimer, nActs int) (fireTimerEarly bool) {
 }
 
 // shutdown stops every node and waits for the goroutines (still inside the bubble).
+// finalChecks runs the end-of-run oracles (before the verdict is checkpointed).
+func (w *vzWorld) finalChecks() {
+	for _, nd := range w.nodes {
+		if !nd.byz {
+			w.orc.checkStoredHeadersIntact(nd)
+		}
+	}
+}
+
 func (w *vzWorld) shutdown() {
 	// first let everything parked run to quiescence, then cancel (see the state machine harness)
 	w.s.Stop()
